@@ -139,6 +139,14 @@ func (s *fhState) enabled() []fhOp {
 	for _, id := range ids {
 		ops = append(ops, fhOp{Kind: "release", ID: id})
 	}
+	// Release of a value that is not live (already released or evicted, or never issued) is a no-op
+	for id := uint64(1); id <= s.maxIssued; id++ {
+		if _, isLive := lv[id]; !isLive {
+			ops = append(ops, fhOp{Kind: "release", ID: id})
+			break
+		}
+	}
+	ops = append(ops, fhOp{Kind: "release", ID: s.maxIssued + 1})
 	ops = append(ops, fhOp{Kind: "releaseall"})
 	return ops
 }
@@ -215,6 +223,16 @@ func (s *fhState) apply(op fhOp, check bool, hist []fhOp) {
 		lv := s.live()
 		if len(lv) != s.fm.Count() {
 			s.c.violation("C05|count-disagrees-with-get|seam=map", fmt.Sprintf("Count()=%d but %d ids resolve", s.fm.Count(), len(lv)), cs())
+		}
+		// the path index and the table name the same objects
+		for p, h := range s.fm.pathHandles {
+			if n, ok := s.fm.handles[h].(*NFSNode); !ok || n.path != p {
+				got := "nothing"
+				if ok {
+					got = n.path
+				}
+				s.c.violation("C05|path-index-names-other-object|seam=map", fmt.Sprintf("the table records handle %d for %s, but handle %d resolves to %s", h, p, h, got), cs())
+			}
 		}
 		seen := map[string]uint64{}
 		for id, p := range lv {
